@@ -172,9 +172,12 @@ def xlsx_part(ctx):
                         f"XLSX iterate_tables(): cell tokens lost, duplicated or reordered (expected {len(want)}, got {len(got_t)})", rep)
     # ---- long sheets: row counts beyond the thresholds a renderer might sample (1024 / 2048 / 4096 ...), with the
     # widest value of a column occurring late, early, or in the middle
-    for R in ([1030, 2100, 2600] if ctx.tier != "thorough" else [1030, 2100, 2600, 4200, 8300, 17000]):
+    sizes = [1030, 2100, 2600] if ctx.tier != "thorough" else [1030, 2100, 2600, 4200, 8300, 17000]
+    plan = [(R, w) for R in sizes for w in ("late", "any")] if ctx.tier == "thorough" else [(1030, "any"), (2100, "late"), (2600, "late")]
+    for R, where in plan:
         ncols = rng.randint(2, 3)
-        wide_from = rng.choice([R - rng.randint(5, 400), R // 2, 3])
+        # "late": the wider values start only in the last rows (after every plausible sampling window)
+        wide_from = R - rng.randint(5, 40) if where == "late" else rng.choice([R // 2, 3, R - rng.randint(41, 400)])
         cells = {}
         for r in range(R):
             for c in range(ncols):
